@@ -386,6 +386,8 @@ def systematic_fns():
     F.append(bool_fn("f", 3, "c or (a and b) or (not a and not b)", "unused-simplifies"))
     F.append(bool_fn("f", 2, "(a == (not a)) or b", "anf-complement-xor"))
     F.append(bool_fn("f", 2, "(a != (not a)) and b", "complement-xor-true"))
+    F.append(bool_fn("f", 1, "((a and a) and (a == a)) != (((not a) or a) and a)", "anf-complement-or"))
+    F.append(Fn("f", [("a", 4), ("b", 4)], "bool", ["return a == b"], ref=lambda v: (v["a"] == v["b"],), tag="qint-eq-8vars"))
     F.append(Fn("f", [(v, "bool") for v in "abcd"], "bool", ["e = a and b", "return (e or c) and (e ^ d)"],
                 ref=lambda v: ((((v["a"] and v["b"]) or v["c"]) and ((v["a"] and v["b"]) ^ v["d"])),), tag="intermediate-stmt"))
     F.append(Fn("f", [("a", "bool"), ("b", "bool")], "Tuple[bool, bool]", ["return (a and b, a ^ b)"],
@@ -1003,8 +1005,9 @@ def attribute(ctx, case, out, fmt, form, info, model_agrees, what):
     ids = []
     nf = info.get("nf") or []
     if out["exc"] == "ValueError" and (fmt == "dimacs" or form in ("cnf", "dnf")):
-        sec = info.get("second")
-        if sec and len(B.syms_json(sec["combined"])) > 8 and active(ctx, "C17-nf-var-limit"):
+        failed = [e for e in nf if isinstance(e[2], dict) and e[2].get("error") == "ValueError"]
+        if (failed and failed[-1][0] in ("cnf", "dnf") and failed[-1][1][0] != "?" and n_predicates(failed[-1][1]) > 8
+                and active(ctx, "C17-nf-var-limit")):
             return ["C17-nf-var-limit"]
     if info.get("no_intermediates") is False and active(ctx, "C17-bexp-intermediates"):
         ids.append("C17-bexp-intermediates")
@@ -1065,8 +1068,8 @@ def run_bexp_case(ctx, res, script, entry, form, fmt, in_file, out_file, bucket)
         elif not ok:
             ids = attribute(ctx, case, out, fmt, form, info, state["agrees"], what)
             if (not ids and state["agrees"] and nf_broken and all(e[0] == "anf" and has_complement_xor(e[1]) for e, _ in nf_broken)
-                    and active(ctx, "C17-anf-complement-xor")):
-                ids = ["C17-anf-complement-xor"]
+                    and active(ctx, "C17-anf-complement-args")):
+                ids = ["C17-anf-complement-args"]
             if ids:
                 for fid in ids:
                     res.known(fid)
@@ -1249,13 +1252,31 @@ def run_dimacs_direct(ctx, res, cs):
 
 
 def has_complement_xor(j):
-    """an Xor node with a symbol and its negation among its arguments (sympy's Xor keeps it)"""
-    if j[0] == "xor":
+    """an Xor/Or/And node that keeps an expression and its negation among its arguments
+    (qlasskit builds such unevaluated nodes, e.g. `a ^ ~a` for `a != (not a)`, `a | ~a`)"""
+    if j[0] in ("xor", "or", "and"):
         args = j[1:]
         for x in args:
             if x[0] == "not" and x[1] in args:
                 return True
     return any(has_complement_xor(x) for x in j[1:] if isinstance(x, list))
+
+
+def n_predicates(j):
+    """sympy `_find_predicates`: symbols and constants"""
+    out = set()
+
+    def go(x):
+        if x[0] == "sym":
+            out.add(x[1])
+        elif x[0] in ("tt", "ff"):
+            out.add("!" + x[0])
+        else:
+            for y in x[1:]:
+                go(y)
+
+    go(j)
+    return len(out)
 
 
 def validate_nf(res, case, e):
